@@ -21,7 +21,7 @@ TWIN_FAULTS = ("dup", "clock")          # faults that twin sessions may share (c
 
 # ----------------------------------------------------------------------------- helpers
 def base_doc(rng, profile, latlon_p=0.0, sqlite_p=0.15, pickle_p=0.06, fault_kinds=ALL_FAULTS,
-             cfg_kw=None, world_kw=None, trace_kw=None, big_p=0.08):
+             cfg_kw=None, world_kw=None, trace_kw=None, big_p=0.08, antimeridian_p=0.06):
     cfg_kw, world_kw, trace_kw = dict(cfg_kw or {}), dict(world_kw or {}), dict(trace_kw or {})
     latlon = rng.random() < latlon_p
     r = rng.random()
@@ -57,6 +57,10 @@ def base_doc(rng, profile, latlon_p=0.0, sqlite_p=0.15, pickle_p=0.06, fault_kin
     if latlon:
         lat0 = rng.uniform(-58, 58)
         lon0 = rng.uniform(-170, 170)
+        if rng.random() < antimeridian_p and not backend.startswith("sqlite"):
+            # the map straddles the antimeridian (not on the SQLite backend: its edge index is known to be wrong
+            # for edges that cross it, listed finding D19 of C11, which would show up here as missing start edges)
+            lon0 = rng.choice([179.9996, -179.9996, 179.99995, -179.99998])
         world, trace = gen.to_latlon(world, trace, lat0, lon0)
         world["unit"] = unit
     trace2 = None
@@ -192,8 +196,8 @@ def eval_invariants(doc, checks, skip_jumped=False):
 
 # ----------------------------------------------------------------------------- C02 .. C05, C09
 def gen_C02(rng, tier):
-    d = base_doc(rng, rng.choice(["single", "extend", "widen", "history", "history"]), latlon_p=0.12,
-                 world_kw={"linked_p": 0.15, "zero_len_p": 0.1}, trace_kw={})
+    d = base_doc(rng, rng.choice(["single", "extend", "widen", "history", "history"]), latlon_p=0.15,
+                 world_kw={"linked_p": 0.15, "zero_len_p": 0.1}, trace_kw={}, antimeridian_p=0.3)
     return with_debug_log(rng, d)
 
 
@@ -450,6 +454,16 @@ def eval_C07(doc):
         ia = a.obs["idx"] if not a.obs["empty"] else -1
         ib = b.obs["idx"] if not b.obs["empty"] else -1
         W = doc["cfg"]["max_lattice_width"]
+        # the candidates of the first observation do not depend on the width: every live start candidate of
+        # the unpruned run must be a live candidate of the pruned run as well (expanded or postponed)
+        try:
+            k_pr = set(e.key for e in pr.matcher.lattice[0].values(0) if not e.stop)
+            k_un = set(e.key for e in un.matcher.lattice[0].values(0) if not e.stop)
+        except Exception:
+            k_pr = k_un = set()
+        if k_pr != k_un:
+            vs.append(oa.V("C07/start-candidates-differ-from-unpruned", "only unpruned: %r only pruned: %r" % (
+                sorted(map(repr, k_un - k_pr))[:4], sorted(map(repr, k_pr - k_un))[:4]), a))
         full = max_live_size(un.matcher)
         if W >= full:
             c = compare(a.obs, b.obs)
